@@ -36,6 +36,7 @@ import (
 	"strconv"
 	"strings"
 	"time"
+	_ "time/tzdata" // zones with daylight saving time also where the host has no zone database
 
 	"github.com/koykov/clock"
 	"github.com/koykov/dyntpl"
@@ -212,6 +213,10 @@ func c20TimeText(t time.Time) string {
 	if t.Location() == time.UTC {
 		name = "UTC"
 	}
+	if ln := t.Location().String(); strings.Contains(ln, "/") {
+		// a zone of the zone database (daylight saving time, historical offsets): carried by its name
+		name = "@" + ln
+	}
 	if name == "" {
 		name = "-"
 	}
@@ -235,6 +240,13 @@ func c20ParseTime(s string) (time.Time, error) {
 		return t.UTC(), nil
 	case "-":
 		return t.In(time.FixedZone("", off)), nil
+	}
+	if strings.HasPrefix(fs[3], "@") {
+		loc, err := time.LoadLocation(fs[3][1:])
+		if err != nil {
+			return time.Time{}, err
+		}
+		return t.In(loc), nil
 	}
 	return t.In(time.FixedZone(fs[3], off)), nil
 }
@@ -360,12 +372,144 @@ func c20(r *Run) {
 		c20Replay(r)
 		return
 	}
+	c20SetLocal(r)
 	c20Rounding(r)
 	c20Arith(r)
 	c20Operands(r)
 	c20Dates(r)
 	c20TimeAdd(r)
+	c20DSTAdd(r)
+	c20DurVar(r)
 	c20Chains(r)
+}
+
+// c20DSTAdd: whole days and weeks added to times in zones with daylight saving time, around the transitions.
+func c20DSTAdd(r *Run) {
+	type tr struct {
+		zone string
+		at   time.Time // an instant shortly before a transition
+	}
+	var trs []tr
+	for _, zn := range c20DSTZones {
+		loc, err := time.LoadLocation(zn)
+		if err != nil {
+			r.Dist["dst.zone-missing"]++
+			continue
+		}
+		// find the transitions of some years by scanning the offset day by day
+		for _, y := range []int{1985, 2009, 2021, 2030} {
+			t := time.Date(y, 1, 1, 12, 0, 0, 0, loc)
+			_, prev := t.Zone()
+			for d := 0; d < 366; d++ {
+				t2 := t.Add(24 * time.Hour)
+				if _, off := t2.Zone(); off != prev {
+					trs = append(trs, tr{zn, t})
+					prev = off
+				}
+				t = t2
+			}
+		}
+	}
+	if len(trs) == 0 {
+		r.Internal("C20: no daylight-saving transition found in the zone database")
+		return
+	}
+	r.Dist["dst.transitions"] = len(trs)
+	n := 0
+	for _, x := range trs {
+		for _, dur := range []struct {
+			txt string
+			d   time.Duration
+		}{{"+1 d", 24 * time.Hour}, {"1 day", 24 * time.Hour}, {"2 days", 48 * time.Hour}, {"1 w", 7 * 24 * time.Hour}, {"-1 d", -24 * time.Hour}, {"-3 days", -72 * time.Hour}, {"24 h", 24 * time.Hour},
+			{"1 d 1 h", 25 * time.Hour}, {"100 d", 2400 * time.Hour}, {"-1 w", -7 * 24 * time.Hour}} {
+			for _, shift := range []time.Duration{0, 20 * time.Hour, 36 * time.Hour} {
+				n++
+				inst := x.at.Add(shift)
+				if dur.d < 0 {
+					inst = inst.Add(-dur.d) // so that the interval still crosses the transition
+				}
+				kind := []string{"time", "*time"}[n%2]
+				v := c20Var{Name: "v", Kind: kind, Text: c20TimeText(inst)}
+				mod := []string{"time::add", "time::date_modify"}[n%2]
+				tpl := fmt.Sprintf("{%%= v|%s(\"%s\")|time::date(\"%s\") %%}", mod, dur.txt, c20AddLayout)
+				want, _ := clock.FormatString(c20AddLayout, inst.Add(dur.d))
+				res := c20Render(tpl, []c20Var{v})
+				got := string(res.Out)
+				r.Count("dst:"+dur.txt+"|"+v.Text, true)
+				r.Dist["dst.add"]++
+				if res.Panic == "" && res.Err == nil && got == want {
+					continue
+				}
+				r.Violate(fmt.Sprintf("add dst zone=%s dur=%q got=%s want=%s", x.zone, dur.txt, c20Short(got), c20Short(want)),
+					fmt.Sprintf("{%s} with %s printed %q (%s); instant + %v is %q", tpl, c20VarsText([]c20Var{v}), got, res.ErrStr(), dur.d, want),
+					c20Case{Stream: "time::add", Tpl: tpl, Vars: []c20Var{v}, Want: want, Cmp: "text", Info: fmt.Sprintf("%q = %v across a daylight-saving transition of %s", dur.txt, dur.d, x.zone)})
+			}
+		}
+	}
+}
+
+// c20DurVar: the duration of time::add comes from a VARIABLE that gets a new value between two uses on the same
+// context (a second tag after a ctx tag; a second render after SetString / SetBytes without Reset): every use adds
+// the variable's current value.
+func c20DurVar(r *Run) {
+	inst := time.Date(2021, 3, 4, 5, 6, 7, 0, time.UTC)
+	pairs := [][2]string{{"1 h", "2 h"}, {"1 h", "3 d"}, {"+90 m", "-90 m"}, {"1 w", "1 d"}, {"10 s", "10 m"}, {"2 hours", "1 minute"}}
+	durOf := map[string]time.Duration{"1 h": time.Hour, "2 h": 2 * time.Hour, "3 d": 72 * time.Hour, "+90 m": 90 * time.Minute, "-90 m": -90 * time.Minute, "1 w": 168 * time.Hour, "1 d": 24 * time.Hour,
+		"10 s": 10 * time.Second, "10 m": 10 * time.Minute, "2 hours": 2 * time.Hour, "1 minute": time.Minute}
+	f := func(d string) string { w, _ := clock.FormatString(c20AddLayout, inst.Add(durOf[d])); return w }
+	tag := fmt.Sprintf("{%%= v|time::add(dur)|time::date(\"%s\") %%}", c20AddLayout)
+	for pi, p := range pairs {
+		// (a) one template, the variable re-assigned by a ctx tag between two uses
+		src := fmt.Sprintf("{%% ctx dur = \"%s\" %%}%s;{%% ctx dur = \"%s\" %%}%s;{%% ctx dur = \"%s\" %%}%s", p[0], tag, p[1], tag, p[0], tag)
+		want := f(p[0]) + ";" + f(p[1]) + ";" + f(p[0])
+		k, err, pan := regTpl(src, true)
+		var got rendered
+		if err == nil && pan == "" {
+			ctx := dyntpl.NewCtx()
+			ctx.SetStatic("v", inst)
+			got = renderSafe(k, ctx)
+		}
+		r.Count(fmt.Sprintf("durvar:ctx:%d", pi), true)
+		r.Dist["durvar"]++
+		if err != nil || pan != "" || got.Err != nil || got.Panic != "" || string(got.Out) != want {
+			r.Violate(fmt.Sprintf("add durvar ctx-tag %q then %q got=%s", p[0], p[1], c20Short(string(got.Out))), "time::add with a duration VARIABLE that was re-assigned between two uses does not add the variable's current value",
+				map[string]any{"template": src, "v": inst.Format(time.RFC3339), "output": string(got.Out), "expected": want, "error": got.ErrStr()})
+		}
+		// (b) two renders on one context, the variable set again by the caller in between (no Reset)
+		k2, err2, pan2 := regTpl(tag, true)
+		if err2 != nil || pan2 != "" {
+			continue
+		}
+		for mode := 0; mode < 3; mode++ {
+			ctx := dyntpl.NewCtx()
+			ctx.SetStatic("v", inst)
+			var outs, wants []string
+			bufA, bufB := []byte(p[0]), []byte(p[0])
+			for step, d := range []string{p[0], p[1], p[0], p[1]} {
+				switch mode {
+				case 0:
+					ctx.SetString("dur", d)
+				case 1:
+					ctx.SetBytes("dur", []byte(d))
+				default:
+					// the caller's own buffer, overwritten in place and handed over again as the same *[]byte
+					bufA = append(bufA[:0], d...)
+					_ = bufB
+					ctx.SetStatic("dur", &bufA)
+				}
+				res := renderSafe(k2, ctx)
+				outs = append(outs, string(res.Out)+res.ErrStr()[2:])
+				wants = append(wants, f(d))
+				_ = step
+			}
+			r.Count(fmt.Sprintf("durvar:renders:%d:%d", pi, mode), true)
+			r.Dist["durvar"]++
+			if strings.Join(outs, ";") != strings.Join(wants, ";") {
+				r.Violate(fmt.Sprintf("add durvar renders mode=%d %q then %q", mode, p[0], p[1]), "time::add with a duration VARIABLE that the caller set again between two renders on one context (no Reset) does not add the variable's current value",
+					map[string]any{"template": tag, "setter": []string{"SetString", "SetBytes", "SetStatic(&buf) with buf overwritten in place"}[mode], "durations": []string{p[0], p[1], p[0], p[1]}, "outputs": outs, "expected": wants})
+			}
+		}
+	}
 }
 
 // c20Chains: where the result of a numeric / date modifier goes next (a relation on the real engine alone; every
@@ -1423,9 +1567,30 @@ func c20LiteralLayouts() []string {
 }
 
 func c20Zones() []*time.Location {
-	return []*time.Location{time.UTC, time.FixedZone("IST", 5*3600+1800), time.FixedZone("EST", -5*3600),
+	zs := []*time.Location{time.UTC, time.FixedZone("IST", 5*3600+1800), time.FixedZone("EST", -5*3600),
 		time.FixedZone("LINT", 14*3600), time.FixedZone("BIT", -12*3600), time.FixedZone("ODD", 60),
 		time.FixedZone("", 3600), time.FixedZone("NST", -(3*3600 + 1800))}
+	// zones whose offset changes over the year (and over the years): adding n days is adding n x 24 hours to the
+	// INSTANT, whatever the wall clock does in between
+	for _, n := range c20DSTZones {
+		if loc, err := time.LoadLocation(n); err == nil {
+			zs = append(zs, loc)
+		}
+	}
+	return zs
+}
+
+var c20DSTZones = []string{"Europe/Moscow", "America/New_York", "Australia/Lord_Howe", "Europe/London", "America/Sao_Paulo"}
+
+// c20SetLocal gives the process a local zone other than UTC (with daylight saving time): an integer carrier is a
+// count of Unix seconds, and time.Unix(s, 0) — what the property's oracle formats — is in the LOCAL zone.
+func c20SetLocal(r *Run) {
+	loc, err := time.LoadLocation("America/New_York")
+	if err != nil {
+		r.Internal("C20: no zone database: " + err.Error())
+		return
+	}
+	time.Local = loc
 }
 
 func c20Instants(r *Run, n int) []time.Time {
